@@ -12,10 +12,33 @@ def gen_case(rng, slots=4):
     for _ in range(n):
         ops = rng.choice([["G"], ["G", "G"], ["G", "R", "G"], ["G", "R"], ["G", "G", "R", "G"], ["R", "G"]])
         faults = [rng.random() < 0.15 for _ in range(rng.choice([0, 0, 3, 8]))]
-        threads.append({"kind": rng.choice(["int", "str"]), "ops": ops, "faults": faults})
+        kind = rng.choice(["int", "str"])
+        if kind == "int" and rng.random() < 0.3:
+            # IDManager.GenerateUniqueID with a scripted existence check (n not taken / x exists elsewhere / e check fails)
+            u = "U" + "".join(rng.choice("nxxe") for _ in range(rng.choice([1, 2, 3])))
+            ops = list(ops)
+            ops[rng.randrange(len(ops))] = u
+        threads.append({"kind": kind, "ops": ops, "faults": faults,
+                        "true_on_fault": [rng.random() < 0.5 for _ in faults]})
     pre = rng.sample(range(slots), min(slots, rng.choice([0, 0, 1, 2, 3, slots])))
     sched = [rng.randrange(n) for _ in range(rng.choice([0, 3, 8, 20, 60]))]
     return {"mode": "sched", "threads": threads, "sched": sched, "pre": sorted(pre), "slots": slots}
+
+
+def unique_cases():
+    """directed: GenerateUniqueID whose check fails / says exists, then a second caller drawing the same slot"""
+    out = []
+    for script in ("e", "x", "xe", "xxn", "n"):
+        for sched in ([0] * 6 + [1] * 4, [0, 1] * 5, [1, 0, 0, 0, 0, 1, 1]):
+            out.append({"mode": "sched", "threads": [{"kind": "int", "ops": ["U" + script], "faults": []},
+                                                      {"kind": "int", "ops": ["G", "G"], "faults": []}],
+                        "sched": list(sched), "pre": [], "slots": 2})
+    # SetNX reporting (true, err): the id must not be handed out
+    for tof in ([True], [True, True], [False, True]):
+        out.append({"mode": "sched", "threads": [{"kind": "int", "ops": ["G"], "faults": [True] * len(tof), "true_on_fault": tof},
+                                                  {"kind": "str", "ops": ["G", "G"], "faults": []}],
+                    "sched": [0, 0, 1, 1, 0, 1], "pre": [], "slots": 2})
+    return out
 
 
 def exhaustive_cases(rng):
@@ -32,7 +55,7 @@ def exhaustive_cases(rng):
 def case_value(c, o):
     ths = []
     for t, to in zip(c["threads"], o["threads"]):
-        ths.append([[1 if x == "R" else 0 for x in t["ops"]], list(to["cands"]), [bool(f) for f in t["faults"]],
+        ths.append([[1 if x == "R" else 0 for x in (to.get("ops") if to.get("ops") is not None else t["ops"])], list(to["cands"]), [bool(f) for f in t["faults"]],
                     [[k, s] for k, s in to["log"]]])
     return [ths, list(o["sched"]), list(c["pre"]), c["slots"], list(o["markers"])]
 
@@ -52,6 +75,7 @@ def run(ctx, only_cases=None):
     else:
         cases = [gen_case(ctx.rng, ctx.rng.choice([2, 3, 4, 4])) for _ in range(5000 if thorough else 400)]
         cases += exhaustive_cases(ctx.rng) if thorough else exhaustive_cases(ctx.rng)[::4]
+        cases += unique_cases()
         cases += [{"mode": "node", "n": n} for n in ([2, 8, 32, 64] * (20 if thorough else 3))]
         # the non-atomic fallback inside ONE generator instance (store without SetNX): all 2-caller schedules of length 4
         cases += [{"mode": "fallback", "n": 2, "sched": list(s)} for s in itertools.product([0, 1], repeat=4)]
